@@ -700,15 +700,18 @@ func (c *Ctx) tok12() {
 					}
 				}
 				if acc {
-					if locked >= 0 && deferred {
+					// (that the mutex is given back on every exit — by a deferred Unlock or by
+					// one before each return — is TOK-18's balance on every path)
+					_ = deferred
+					if locked >= 0 {
 						lock.pass()
 					} else {
-						lock.fail(p, i, "the callback registry is accessed without holding its mutex (with a deferred Unlock): concurrent requests and the read routine race on the map")
+						lock.fail(p, i, "the callback registry is accessed without holding its mutex: concurrent requests and the read routine race on the map")
 					}
 				}
 			}
 		}
-		lock.done(1, "every access lies between Lock and the deferred Unlock")
+		lock.done(1, "every access lies between Lock and Unlock")
 	}
 	c.S.Floor("TOK-12", "functions touching the callback registry", n, 3)
 
